@@ -79,7 +79,7 @@ func (f *Frame) run(args []T, st State, path T) (results []T, outSt State, outPa
 	for _, r := range f.rets {
 		paths = append(paths, r.path)
 	}
-	outPath = f.enc.define(f.sym("EXIT"), Or(paths...))
+	outPath = f.enc.definePath(f.sym("EXIT"), Or(paths...))
 	n := len(f.rets[0].results)
 	results = make([]T, n)
 	for i := 0; i < n; i++ {
@@ -187,7 +187,7 @@ func (p *Program) verifyFunction(name string) (enc *Enc, err error) {
 			f.installFrameChecks(locs, alloc0)
 		}
 	}
-	pathIn := enc.define("ENTRY", And(entry...))
+	pathIn := enc.definePath("ENTRY", And(entry...))
 	enc.obls = append(enc.obls, &Obl{Name: "cover:entry", Class: "cover", Func: name, Path: pathIn, Cond: True, Cover: true, Pos: p.pos(fn.Pos())})
 	results, outSt, outPath, ok := f.run(args, State{}, pathIn)
 	if !ok {
@@ -219,3 +219,43 @@ func (p *Program) verifyFunction(name string) (enc *Enc, err error) {
 }
 
 var _ = token.NoPos
+
+// verifyLemma: a lemma is a closed statement over spec functions and an arbitrary heap state; it is
+// proved once, in isolation, for arbitrary parameter values.
+func (p *Program) verifyLemma(name string) (enc *Enc, err error) {
+	lm := p.lemmas[name]
+	enc = newEnc(p)
+	defer func() {
+		if r := recover(); r != nil {
+			if te, ok := r.(trErr); ok {
+				err = fmt.Errorf("lemma %s: %s", name, te.msg)
+				return
+			}
+			panic(r)
+		}
+	}()
+	// a dummy frame to host the translator
+	var anyFn *ssa.Function
+	for _, fn := range p.funcs {
+		anyFn = fn
+		break
+	}
+	f := newFrame(enc, p, anyFn, "", true)
+	f.fname = "lemma " + name
+	f.entrySt, f.st = State{}, State{}
+	enc.stateSort["alloc"] = SInt
+	alloc0 := enc.declConst("alloc@0", SInt)
+	enc.factAbout(alloc0, Le(Zero, alloc0))
+	tr := &Translator{f: f, cur: f.st, old: f.st, allocOld: alloc0, bound: map[string]tv{}}
+	for _, prm := range lm.Params {
+		ty := tr.goType(prm.Type)
+		s := p.sortOf(ty)
+		enc.declSortOf(s)
+		c := enc.declConst("l_"+prm.Name, s)
+		f.typeFacts(c, ty)
+		tr.bound[prm.Name] = tv{c, ty}
+	}
+	body := tr.boolExpr(lm.Body)
+	enc.obls = append(enc.obls, &Obl{Name: "lemma:" + name, Class: "lemma", Func: "lemma " + name, Path: True, Cond: body, Pos: fmt.Sprintf("contracts:%d", lm.Line)})
+	return enc, nil
+}
